@@ -15,7 +15,10 @@ RULE = ("cases (harness/c15.go, seeded): a recorder configuration = wrapper (non
         "SetDuration(2500), SetTotalDuration(4096), SetTime(T), EndTest, Reset} for 17 configurations (all 8 "
         "constructors, both intervals of the grouped ones, 3 synchronized, 4 shim); (b) random histories of length "
         "1..40 over all 16 interface calls with small, negative, boundary (HDR acceptance limits 262143/262144, "
-        "2^36-1/2^36) and extreme (wrapping) arguments, random failure schedules. Observed per call: every point "
+        "2^36-1/2^36) and extreme (wrapping) arguments, random failure schedules; (c) tick cases: the two interval recorders (plain, synchronized, shim) with a 200 us "
+        "ticker whose flusher goroutine is parked at the verif-tag schedule point fl.tick and released by the harness "
+        "between two calls (call 'tick' = the flusher's body runs exactly there; only while a flusher is alive), a "
+        "quarter of the ticks on an unstamped point; run one case at a time. Observed per call: every point "
         "handed to the collector (read DURING Add: a *Performance through the document it marshals to, a "
         "*PerformanceHDR through its struct fields and the non-zero counts of its six histograms), EndTest's error "
         "split into lines, the wall-clock readings before and after the call, finally the TimerManager counters. "
@@ -47,7 +50,7 @@ def classify(cases_path):
             continue
         key, hd, calls, chunks = input_key(l)
         h = hashlib.sha1(key.encode()).digest()
-        kinds["%s/%s" % (hd[3], "0" if hd[4] == "0" else "1h")] += 1
+        kinds["%s/%s" % (hd[3], {"0": "0", "3600000000000": "1h", "200000": "200us"}.get(hd[4], hd[4]))] += 1
         wrappers[hd[2]] += 1
         n = len(calls)
         lengths["1-4" if n <= 4 else "5-10" if n <= 10 else "11-20" if n <= 20 else "21-40"] += 1
@@ -56,6 +59,9 @@ def classify(cases_path):
         persisted = len(re.findall(r" [PH] \d", l))
         if persisted:
             feats["cases_with_persisted_points"] += 1
+        if " tick @" in l:
+            feats["cases_with_flusher_ticks"] += 1
+            feats["flusher_ticks"] += l.count(" tick @")
         if " A:" in l:
             feats["cases_with_collector_error_returned"] += 1
         if " R:" in l:
@@ -96,6 +102,7 @@ def run(c):
                        disagreements_checked=len(mism), input_distribution=dist,
                        persisted_points_compared=summ.get("persisted_points", 0),
                        endtest_results_compared=summ.get("endtests", 0), oracle_violations=len(viol),
+                       tick_cases_skipped=summ.get("skipped", 0),
                        exhaustive_part="all histories of length <= %d over 8 calls, 17 configurations"
                                        % (4 if c.tier == "thorough" else 3))
             if rc != 0 or "cases" not in summ:
@@ -124,8 +131,10 @@ def run(c):
         "(histograms: sorted cell indices pairwise between those of the two extremes); everything else exactly",
         "the interval gate of the grouped recorders is exercised at intervals 0 and 1 h only, where the three readings "
         "of one call cannot disagree about it",
-        "the flusher of the interval recorders (model operation Tick) is covered by the theorems but NOT by the "
-        "correspondence check: the real ticker (1 h) never fires within a case",
+        "the flusher of the interval recorders (model operation Tick) is exercised only in the tick cases, where the "
+        "harness decides through the schedule point fl.tick (events/verif_on.go) when the flusher's body runs; in all "
+        "other cases the ticker period is 1 h and never fires. A tick case in which the flusher does not show up "
+        "within 10 s is skipped and counted (tick_cases_skipped)",
         "a time.Time is modelled as its UnixNano with 0 for the zero time; the harness never passes time.Unix(0,0)",
         "a histogram is observed through Distribution() (non-zero bars mapped to counts indices by the verif-tag "
         "accessor VerifCountsIndexFor) and TotalCount(); RecordValue's acceptance is hdrhist's index computation of "
